@@ -36,6 +36,8 @@ EXTRA_THEOREM_MODULES = []
 # p255: CURVE_25519 (Weierstrass form of Curve25519, cofactor 8, a*b != 0), TWEEDLEDUM (a = 0); p381: B12_P381 (11-isogeny, h_eff = 1 - x)
 CURVES = {"base": [12, 13, 14, 15, 23, 24], "map-basic": [12, 13, 14, 15, 23, 24], "map-swift": [14, 23, 24, 12],
           "p255": [10, 11], "p381": [30]}
+# binary curves of the base configuration (FB_POLYN = 283): NIST_B283 (h = 2), NIST_K283 (h = 4)
+EB_CURVES = {"base": [8, 9]}
 MSG_LENS = [0, 1, 31, 32, 33, 55, 56, 63, 64, 65, 127, 128, 129, 300]
 SOURCES = ("oracle.c", "ops_bn.c", "ops_map.c")
 DEFS = ("ORACLE_EXTRA1=ops_map",)
@@ -268,6 +270,72 @@ def streams(ctx, scale=1):
             lines += ["ep_map_param %d" % cid] + block + rep
             again += ["ep_map_param %d" % cid] + rep
         res.append({"name": "map-" + cfg, "cfg": cfg, "exe": exe, "lines": lines + again})
+    return res + eb_streams(ctx, scale) + ed_streams(ctx, scale)
+
+
+def group_msgs(rng, op, reps):
+    out = []
+    for ln in MSG_LENS:
+        for _ in range(reps):
+            k = rng.below(4)
+            m = bytes(ln) if k == 0 else (b"\xff" * ln if k == 1 else rng.bytes(ln))
+            out.append("%s %s" % (op, hexb(m)))
+    return out
+
+
+def eb_streams(ctx, scale=1):
+    reps = (1 if ctx.tier == "quick" else 12) * scale
+    res = []
+    for cfg, ids in EB_CURVES.items():
+        exe = _exe(ctx, cfg)
+        lines, again = ["cfg"], []
+        for cid in ids:
+            block = group_msgs(ctx.rng, "eb_map", reps)
+            rep = [ctx.rng.choice(block) for _ in range(2)]
+            lines += ["eb_map_param %d" % cid] + block + rep
+            again += ["eb_map_param %d" % cid] + rep
+        res.append({"name": "eb-" + cfg, "cfg": cfg, "exe": exe, "lines": lines + again})
+    return res
+
+
+ED_CURVES = {"p255": [1]}     # CURVE_ED25519 (the only Edwards parameter set; FP_PRIME = 255)
+
+
+def ed_streams(ctx, scale=1):
+    rng = ctx.rng
+    reps = (1 if ctx.tier == "quick" else 12) * scale
+    res = []
+    for cfg, ids in ED_CURVES.items():
+        exe = _exe(ctx, cfg)
+        lines = ["cfg"]
+        for cid in ids:
+            out = subprocess.run([exe], input="ed_map_param %d\n" % cid, stdout=subprocess.PIPE, stderr=subprocess.DEVNULL, text=True,
+                                 timeout=60).stdout
+            kv = dict(t.split("=", 1) for t in out.split()[1:] if "=" in t)
+            if "p" not in kv:
+                continue
+            p, J = int(kv["p"], 16), int(kv["c3"], 16)
+            block = group_msgs(rng, "ed_map", reps)
+            # explicit domain separation tags: empty, one byte, the library's own, the longest admissible, too long
+            for dl in (0, 1, 5, 16, 254, 255, 256, 300):
+                for ln in (0, 3, 64, 129):
+                    dst = b"RELIC" if dl == 5 else rng.bytes(dl)
+                    block.append("ed_map_dst %s %s" % (hexb(rng.bytes(ln)), hexb(dst)))
+            # the map from a field element: 0, +-1, values sent to the exceptional points of the Montgomery -> Edwards map
+            # (s = -1: 1 + 2u^2 = J; t = 0: g(x) = 0), representatives >= p
+            us = [0, 1, p - 1, 2, p - 2, (p - 1) // 2, (p + 1) // 2]
+            r = sqrt_mod((J - 1) * pow(2, -1, p), p)
+            if r is not None:
+                us += [r, p - r]
+            r = sqrt_mod((-J - 1) * pow(2, -1, p) % p, p)     # x2 = -x1 - J = -1
+            if r is not None:
+                us += [r, p - r]
+            us += [rng.bits(300) % p for _ in range(20 * reps)]
+            for u in us:
+                block.append("ed_ell2 %x" % (u + rng.choice([0, 0, p, 3 * p])))
+            rep = [rng.choice(block) for _ in range(4)]
+            lines += ["ed_map_param %d" % cid] + block + rep
+        res.append({"name": "ed-" + cfg, "cfg": cfg, "exe": exe, "lines": lines})
     return res
 
 
@@ -281,7 +349,7 @@ def replay_streams(ctx, rp):
 
 
 def nontrivial(r):
-    return not r["line"].startswith("ep_map_param") and not r["got"].startswith("err") and not r["got"].startswith("inf")
+    return not r["line"].split(" ")[0].endswith("_param") and not r["got"].startswith("err") and not r["got"].startswith("inf")
 
 
 def matches_finding(f, r):
